@@ -132,3 +132,7 @@ Lemma dropped_option_is_visible :
     (fun k s => s) (fun s => firstn 64 s) bad_site (fun l => fold_right Nat.add 0%nat l) [ex_env 7 0] (ex_env 7 1)
   <> fold_right Nat.add 0%nat (map (ex_env 7 1) (cs_params bad_site)).
 Proof. vm_compute. discriminate. Qed.
+
+(** The extractor recognised every shape at the memoisation sites (regenerated obligation). *)
+Lemma cache_shapes_recognised : cache_unrecognised = [].
+Proof. reflexivity. Qed.
